@@ -135,7 +135,7 @@ Print Assumptions C02_contract_transfers_for_signer_minted_refuted_K15.
     balance a second time. *)
 Theorem C02_selfdestruct_to_other_conserves_example :
   model_obs w_sd_to_other = impl_obs w_sd_to_other /\ b_ok (model_obs w_sd_to_other) = true /\
-  b_supply (model_obs w_sd_to_other) = 0 /\ b_alive (model_obs w_sd_to_other) = [false; true; true] /\
+  b_supply (model_obs w_sd_to_other) = 0 /\ firstn 3 (b_alive (model_obs w_sd_to_other)) = [0; 2; 2] /\
   nth 1 (b_bal (model_obs w_sd_to_other)) 0 = 5025.
 Proof. exact sd_to_other_conserves. Qed.
 Print Assumptions C02_selfdestruct_to_other_conserves_example.
